@@ -48,8 +48,8 @@ TrimR(s) == IF Len(s) > 0 /\ IsSpace(s[Len(s)]) THEN TrimR(SubSeq(s, 1, Len(s) -
 (* in chunks: fgets() into what is left of the line buffer (capacity grows by 128 whenever fewer than    *)
 (* 128 characters are left and is kept from line to line), so a long physical line - or a continued      *)
 (* one, whose later parts find a partly filled buffer - arrives in several chunks.                        *)
-(*   B = [cap, low, grow]  buffer state: capacity, reallocation threshold, growth (real: 256.., 128, 128) *)
-RealBuf == [cap |-> 256, low |-> 128, grow |-> 128]
+(*   B = [cap, low, grow]  buffer state: capacity, reallocation threshold, growth (real: 1024.., 128, 128) *)
+RealBuf == [cap |-> 1024, low |-> 128, grow |-> 128]      \* OneLine starts with STRINGSIZE = 1024 (datatypes.h)
 
 \* fgets(n): at most n-1 characters from position pos, stopping behind the first LF
 RECURSIVE FgetsEnd(_, _, _)
